@@ -85,12 +85,18 @@ def default_form(qtype, dflt, pos):
     return f
 
 
-def trigger_form(tpos, cpos, ctype, with_calc=True):
+# calculation texts of triggered rows: expressions, bare words of the yes/no family (which pyxform converts in bind attributes),
+# literals, a lone reference
+CALC_TEXTS = ["concat(${src}, 'x')", "yes", "no", "true", "false", "TRUE", "Yes", "No", "true()", "'yes'", "1", "${src}", "now()", "${src} + 1"]
+ALIAS_WORDS = {"yes", "no", "true", "false"}
+
+
+def trigger_form(tpos, cpos, ctype, with_calc=True, calc_text="concat(${src}, 'x')"):
     """trigger question at tpos, calculated row at cpos."""
     trig = Row("q", "text", "trig", {"label": "T"})
     cells = {"trigger": "${trig}"}
     if ctype != "background-geopoint":
-        cells["calculation"] = "concat(${src}, 'x')" if with_calc else ""
+        cells["calculation"] = calc_text if with_calc else ""
         if not with_calc:
             cells.pop("calculation")
     if ctype in ("text", "integer", "dateTime"):
@@ -217,7 +223,7 @@ def judge(ctx, form, klass, sig, sample=False):
                 if te and len(te) == 1 and par.get("ref") != te[0].path:
                     ctx.viol("trigger:action-not-nested-in-trigger-control", f"{e.path}: action nested in <{xf.local(par.tag)} ref={par.get('ref')}>, trigger is {te[0].path}", wit())
                 calc = r.cells.get("calculation")
-                if calc and bt != "background-geopoint":
+                if calc and bt != "background-geopoint" and calc.strip().lower() not in ALIAS_WORDS:
                     from .C05 import value_pattern
                     if value_pattern(calc).match(s.get("value") or "") is None:
                         ctx.viol("trigger:value-differs", f"{e.path}: setvalue value {s.get('value')!r} for calculation {calc!r}", wit())
@@ -252,11 +258,16 @@ def run_shard(ctx):
             form = default_form(qt, d, pos)
             judge(ctx, form, "enum-default", f"default|{qt}|{kls}:{di}|{pos}", sample=(n <= 2))
     for tpos, cpos, ctype in itertools.product(POSITIONS, POSITIONS, ["calculate", "text", "integer", "dateTime", "background-geopoint", "hidden"]):
-        n += 1
-        if not ctx.mine(n):
-            continue
-        form = trigger_form(tpos, cpos, ctype)
-        judge(ctx, form, "enum-trigger", f"trigger|{tpos}|{cpos}|{ctype}")
+        texts = CALC_TEXTS if ctype != "background-geopoint" else CALC_TEXTS[:1]
+        if ctx.tier == "quick":
+            k = (POSITIONS.index(tpos) * 7 + POSITIONS.index(cpos) * 3) % len(CALC_TEXTS)
+            texts = [texts[0]] + ([CALC_TEXTS[k], CALC_TEXTS[(k + 5) % len(CALC_TEXTS)]] if ctype != "background-geopoint" else [])
+        for ct in dict.fromkeys(texts):
+            n += 1
+            if not ctx.mine(n):
+                continue
+            form = trigger_form(tpos, cpos, ctype, calc_text=ct)
+            judge(ctx, form, "enum-trigger", f"trigger|{tpos}|{cpos}|{ctype}|{ct}")
     for i in range(pl["n_random"]):
         if not ctx.mine(i):
             continue
